@@ -1,16 +1,16 @@
 """which deductive kernel jobs carry which property"""
-from . import kernel_edit, kernel_functions, kernel_split
+from . import kernel_edges, kernel_edit, kernel_functions, kernel_join, kernel_split
 
 # (module, predicate on obligation clause) : a kernel job is run once per property that lists it; evidence counts every
 # obligation of that job under the property (the clause letters G/L/E/T/C/F/O say which property each one carries)
 KERNELS = {
-    "C01": [kernel_edit, kernel_split],
+    "C01": [kernel_edit, kernel_split, kernel_join],
     "C02": [kernel_split],
-    "C03": [kernel_split],
-    "C04": [kernel_edit, kernel_split],
-    "C05": [kernel_functions],
+    "C03": [kernel_split, kernel_edges],
+    "C04": [kernel_edit, kernel_split, kernel_join],
+    "C05": [kernel_functions, kernel_join],
     "C06": [kernel_split, kernel_functions],
-    "C08": [kernel_split],
+    "C08": [kernel_split, kernel_join],
 }
 
 
